@@ -38,6 +38,9 @@ def run(repo, res, tier):
     c11.lookup_rule(repo, res)
     c11.ff_specialized_command(repo, res)
     common.run_traversals(repo, res, only={"check::specialize_nonterminals", "check::resolve_nonterminals"})
+    from . import c02 as _c02b
+    _c02b.levelfield(repo, res)      # a command inside `||` carries the index of its branch (LEVEL, shared with C02)
+    _c02b.arena_immut(repo, res, tier)  # .. and a definition used at two levels is relabelled in a copy, not in the node both uses share (ARENA-IMMUT, shared with C02 / C09)
     # a command deep in a chain of definitions is reached only if definitions are expanded in dependency order (TOPO, shared with C02);
     # the command tables of two within-word expressions are shared only when compared (ISOCOV, shared with C04)
     from . import c02
